@@ -1,12 +1,17 @@
-import Aiorpcx.C15.Msgs
+import Aiorpcx.C15.Order
 import Aiorpcx.Facts.C15
 /-!
 # C15 — back-pressure: blocked sends wait, go out whole once; a stalled peer is aborted
 
 Model: `Aiorpcx.C15.step` (`Model.lean`).  All theorems are over **every** finite sequence of
-events send / pause / resume / lost / time-passes, with any number of concurrent senders and any
-high-water script (the transport may re-pause inside any write), from the initial state of the
-tree as repaired for F14 (`fixed = true`).
+events send / pause / resume / link lost / time passes / cancel a sender / graceful close (with or
+without unsent data, i.e. `is_closing()` true with `connection_lost` still outstanding), with any
+number of concurrent senders and any high-water script (the transport may re-pause inside any
+write), from the initial state of the tree as repaired for F14 (`fixed = true`).
+
+A message is an id (its size is abstracted): that the bytes of one message reach the asyncio
+transport in one piece is the source fact `facts_write_atomic` plus the stream-level oracle of the
+harness, not a theorem about the model.
 -/
 namespace Aiorpcx.C15
 
@@ -14,7 +19,7 @@ def init (maxDelay : Int) : T := { maxDelay := maxDelay }
 
 theorem finv_init (d : Int) : FInv (init d) :=
   ⟨by intro w hw; simp [init] at hw, by intro _; simp [init], by intro h; simp [init] at h,
-   by intro h; simp [init] at h⟩
+   by intro h; simp [init] at h, by intro h; simp [init] at h, by intro h; simp [init] at h⟩
 
 theorem minv_init (d : Int) (hd : 0 < d) : MInv (init d) :=
   ⟨by intro m hm; simp [init] at hm, by intro m hm; simp [init, msgs] at hm, by simp [init],
@@ -28,43 +33,68 @@ theorem nothing_written_while_paused (d : Int) (es : List Event) :
     ∀ w ∈ (run (init d) es).1.writes, w.2 = false :=
   (finv_run es (init d) rfl (finv_init d)).noPausedWrite
 
-/-- **Reading follows writing**: while the connection is up, reading from the peer is paused
-exactly while sending is. -/
+/-- **Reading follows writing**: while the connection is up (not closing), reading from the peer
+is paused exactly while sending is. -/
 theorem reading_tracks_writing (d : Int) (es : List Event)
     (h : (run (init d) es).1.closing = false) :
     (run (init d) es).1.reading = !(run (init d) es).1.tPaused := by
   have := (finv_run es (init d) rfl (finv_init d)).track h
   rw [this.2, this.1]
 
-/-- **A lost connection releases every blocked sender** (nobody is left hanging), and -/
-theorem loss_releases_writers (d : Int) (es : List Event)
-    (h : (run (init d) es).1.closing = true) : (run (init d) es).1.blocked = [] :=
-  ((finv_run es (init d) rfl (finv_init d)).released h).2
+/-- **When room is reported nobody stays blocked**: at every quiescent point at which the
+transport does not have the protocol paused, no sender is waiting (also after a cancellation,
+and also while a close is pending). -/
+theorem room_means_nobody_blocked (d : Int) (es : List Event)
+    (h : (run (init d) es).1.tPaused = false) : (run (init d) es).1.blocked = [] := by
+  have hinv := finv_run es (init d) rfl (finv_init d)
+  cases hb : (run (init d) es).1.blocked with
+  | nil => rfl
+  | cons w ws =>
+    have h1 := hinv.clearPaused (hinv.waiting (by rw [hb]; simp))
+    rw [h] at h1; cases h1
 
-/-- ... nothing more is ever written on it. -/
-theorem nothing_written_after_loss (t : T) (e : Event) (hinv : FInv t)
-    (h : t.closing = true) : (step t e).1.wire = t.wire ∧ (step t e).1.closing = true := by
-  have hrel := hinv.released h
-  cases e with
-  | send s m flags =>
-    by_cases hu : m ∈ t.used
-    · simp [step, hu, h]
-    · simp [step, hu, hrel.1, T.doWrite, T.use, h]
-  | pause =>
-    by_cases hp : t.tPaused = true
-    · simp [step, T.pause, hp, h]
-    · simp [step, T.pause, hp, h]
-  | resume flags =>
-    by_cases hp : t.tPaused = true
-    · simp [step, hp, hrel.1, h]
-    · simp [step, hp, h]
-  | lost => simp [step, h]
-  | advance dt => simp [step, T.fire, hrel.2, earliest, h]
+example : (run (init 20) [.pause, .send 1 1 [], .send 2 2 [], .cancel 1, .resume []]).1.blocked = []
+    ∧ (run (init 20) [.pause, .send 1 1 [], .send 2 2 [], .cancel 1, .resume []]).1.wire = [2] := by
+  decide
+
+/-- **A lost connection releases every blocked sender** (nobody is left hanging): once
+`connection_lost` has been delivered - after a link drop, an abort, or a graceful close that
+completed - no sender is blocked, and the transport is closing. -/
+theorem loss_releases_writers (d : Int) (es : List Event)
+    (h : (run (init d) es).1.lost = true) :
+    (run (init d) es).1.blocked = [] ∧ (run (init d) es).1.closing = true :=
+  ⟨((finv_run es (init d) rfl (finv_init d)).released h).2,
+   (finv_run es (init d) rfl (finv_init d)).lostClosing h⟩
+
+/-- a pending graceful close does *not* release anybody: the senders stay blocked (with their
+timers) until the loss is delivered -/
+example :
+    let t := (run (init 20) [.send 1 1 [true], .send 2 2 [], .gclose true]).1
+    t.closing = true ∧ t.lost = false ∧ msgs t.blocked = [2] := by decide
+
+/-- **Nothing is written once the transport is closing** - from the moment `is_closing()` is
+true (own graceful close, still pending or not; abort; loss) the wire never changes again,
+whatever events follow, and `is_closing()` stays true. -/
+theorem nothing_written_once_closing (es : List Event) : ∀ (t : T), t.closing = true →
+    (run t es).1.wire = t.wire ∧ (run t es).1.closing = true := by
+  induction es with
+  | nil => intro t h; exact ⟨rfl, h⟩
+  | cons e es ih =>
+    intro t h
+    simp only [run]
+    obtain ⟨a, b⟩ := step_closing t e h
+    obtain ⟨c, d⟩ := ih _ b
+    exact ⟨by rw [c, a], d⟩
+
+example :
+    (run (init 20) [.send 1 1 [true], .send 2 2 [], .gclose true, .resume [], .send 3 3 []]).1.wire
+      = [1] := by decide
 
 /-- **Whole, exactly once**: the wire never carries a message twice, carries only messages that
 some sender passed in, and a message still waiting to be written is not on the wire yet.
 (Messages are atomic in the model because `write()` frames and hands over the bytes in one call
-with no suspension point in between - see the facts theorem and the correspondence.) -/
+with no suspension point in between - see `facts_write_atomic` and the stream-level oracle of the
+correspondence.) -/
 theorem whole_once (d : Int) (hd : 0 < d) (es : List Event) :
     (run (init d) es).1.wire.Nodup ∧
     (∀ m ∈ (run (init d) es).1.wire, m ∈ (run (init d) es).1.used) ∧
@@ -72,85 +102,102 @@ theorem whole_once (d : Int) (hd : 0 < d) (es : List Event) :
   let h := minv_run es (init d) (minv_init d hd)
   ⟨h.wireNodup, h.wireUsed, h.disjoint⟩
 
-/-- **A stalled send does not outlive `max_send_delay`**: at every quiescent point every sender
-that is still blocked has been waiting for less than `max_send_delay` (its timer is still ahead);
-when the timer comes due (`fire`) the connection is aborted at exactly that instant: -/
+/-- **Order**: the wire carries the messages in the order in which they were handed to a send
+(`used` lists every message id once, in the order of the send calls): blocked senders are served
+first-in first-out, also across re-pauses, time-outs and cancellations of others, and nobody
+overtakes a waiting sender.  In particular the messages one task sends one after another keep
+their order: if `a` is before `b` on the wire then `a` was sent before `b`. -/
+theorem in_order (d : Int) (es : List Event) :
+    (run (init d) es).1.wire.Sublist (run (init d) es).1.used ∧
+    (run (init d) es).1.used.Nodup ∧
+    (∀ a b, [a, b].Sublist (run (init d) es).1.wire → [a, b].Sublist (run (init d) es).1.used) := by
+  have h : OInv (run (init d) es).1 :=
+    oinv_run es (init d) rfl (finv_init d) (by simp [OInv, init, msgs])
+  have hw := List.Sublist.trans (List.sublist_append_left _ _) h
+  exact ⟨hw, used_nodup_run es (init d) (by simp [init]), fun a b hab => List.Sublist.trans hab hw⟩
+
+/-- three senders queue up, the transport re-pauses inside the first write, the second sender
+is cancelled, the third one is written after the next resume: order of the send calls -/
+example :
+    (run (init 20) [.pause, .send 1 1 [], .send 2 2 [], .send 3 3 [], .resume [true], .cancel 2,
+      .send 4 4 [], .resume []]).1.wire = [1, 3, 4] := by decide
+
+/-- **A cancelled sender's message is written whole or not at all** - in the model: a sender
+that is cancelled while blocked has written nothing (`whole_once`: a waiting message is not on
+the wire), and after the cancellation its message never reaches the wire, whatever happens next.
+(A sender that is not blocked has finished: its message went out whole, and `cancel` is a no-op.)
+That the other senders are unaffected is `cancel_others_unaffected` (`Steps.lean`). -/
+theorem cancelled_never_written (d : Int) (hd : 0 < d) (es : List Event) (m : Nat)
+    (hm : m ∈ msgs (run (init d) es).1.blocked) (es' : List Event) :
+    m ∉ (run (init d) es).1.wire ∧
+    m ∉ (run (step (run (init d) es).1 (.cancel m)).1 es').1.wire := by
+  have h := minv_run es (init d) (minv_init d hd)
+  refine ⟨h.disjoint m hm, ?_⟩
+  have hdead : Dead m (step (run (init d) es).1 (.cancel m)).1 := by
+    rw [(cancel_others_unaffected _ m).1]
+    refine ⟨h.blockedUsed m hm, h.disjoint m hm, ?_⟩
+    simp [msgs]
+  exact (dead_run m es' _ hdead).2.1
+
+example :
+    (run (init 20) [.pause, .send 1 1 [], .send 2 2 [], .cancel 1, .resume [], .send 3 3 []]).2 =
+      [[Obs.pauseReading], [Obs.blocked 1 1], [Obs.blocked 2 2], [Obs.cancelled 1 1],
+       [Obs.resumeReading, Obs.wrote 2 false, Obs.sendOk 2 2 0],
+       [Obs.wrote 3 false, Obs.sendOk 3 3 0]] := by decide
+
+/-- **A stalled send does not outlive `max_send_delay`**: at every quiescent point - also while
+a graceful close is pending (`closing ∧ ¬lost`) - every sender that is still blocked has been
+waiting for less than `max_send_delay` (its timer is still ahead); when the timer comes due
+(`fire`) the connection is aborted at exactly that instant (`stall_aborts`). -/
 theorem nobody_blocked_past_delay (d : Int) (hd : 0 < d) (es : List Event) :
     ∀ w ∈ (run (init d) es).1.blocked,
       (run (init d) es).1.now < w.deadline ∧ w.deadline ≤ (run (init d) es).1.now + d := by
   have h := minv_run es (init d) (minv_init d hd)
-  have hmd : ∀ (es : List Event) (t : T), (run t es).1.maxDelay = t.maxDelay := by
-    intro es
-    induction es with
-    | nil => intro t; rfl
-    | cons e es ih =>
-      intro t; simp only [run]; rw [ih]
-      unfold step
-      cases e with
-      | send s m flags =>
-        simp only []; split
-        · rfl
-        · split
-          · rw [(doWrite_frame _ _ _).2.2.2.2]; rfl
-          · rfl
-      | pause => exact (pause_frame t).2.2.2.2
-      | resume flags =>
-        simp only []; split
-        · rfl
-        · split
-          · rfl
-          · have : ∀ (ws : List Writer) (t : T) (fl : List Bool),
-                (t.wakeAll ws fl).1.maxDelay = t.maxDelay := by
-              intro ws; induction ws with
-              | nil => intro t fl; rfl
-              | cons w ws ih2 =>
-                intro t fl; unfold T.wakeAll; split
-                · rw [ih2]
-                · simp only []; rw [ih2, (doWrite_frame _ _ _).2.2.2.2]
-            rw [this]; rfl
-      | lost =>
-        simp only []; split
-        · rfl
-        · unfold T.connectionLost; simp only []
-          have := (wire_wakeAll_closing t.blocked
-            { t with closing := true, canSend := true, blocked := [] } [] rfl rfl).2.2.2.1
-          rw [this]
-      | advance dt =>
-        unfold T.fire
-        cases earliest t.blocked with
-        | none => rfl
-        | some dd => simp only []; split
-                     · simp only []
-                       unfold T.connectionLost; simp only []
-                       have := (wire_wakeAll_closing (t.atDeadline dd).blocked
-                         { (t.atDeadline dd) with closing := true, canSend := true, blocked := [] }
-                         [] rfl rfl).2.2.2.1
-                       rw [this]; rfl
-                     · rfl
   intro w hw
   have := h.timers w hw
-  rw [hmd es (init d)] at this
+  rw [run_maxDelay es (init d)] at this
   exact this
 
+/-- non-vacuity in the state the pending close creates: closing, not lost, a sender still
+blocked at time 19 with its timer at 20 -/
+example :
+    let t := (run (init 20) [.send 1 1 [true], .send 2 2 [], .gclose true, .advance 19]).1
+    t.closing = true ∧ t.lost = false ∧ t.now = 19 ∧ t.blocked = [⟨2, 2, 20⟩] := by decide
+
 /-- the abort happens at exactly the deadline of the stalled sender(s), each of which gets
-`TaskTimeout`, and the transport is closing afterwards -/
+`TaskTimeout`; afterwards the connection is lost (closing, `connection_lost` delivered, so by
+`loss_releases_writers` everybody else is released).  `t` is *any* state - in particular one in
+which a graceful close is already pending (`is_closing()` true): the abort is not skipped. -/
 theorem stall_aborts (t : T) (limit dl : Int) (w : Writer) (he : earliest t.blocked = some dl)
     (hdue : dl ≤ limit) (hw : w ∈ t.blocked) (hwd : w.deadline = dl) :
     Obs.abort dl ∈ (t.fire limit).2 ∧ Obs.sendTimeout w.sender w.msg dl ∈ (t.fire limit).2 ∧
-    (t.fire limit).1.closing = true := by
+    Obs.lost ∈ (t.fire limit).2 ∧
+    (t.fire limit).1.closing = true ∧ (t.fire limit).1.lost = true ∧
+    (t.fire limit).1.blocked = [] := by
   unfold T.fire
   simp only [he, hdue, ↓reduceIte]
   have hmem : w ∈ t.blocked.filter (·.deadline == dl) := by simp [hw, hwd]
-  refine ⟨?_, ?_, ?_⟩
+  obtain ⟨a, b, _, _, _, _, g⟩ := connectionLost_frame (t.atDeadline dl)
+  refine ⟨?_, ?_, ?_, a, b, g⟩
   · apply List.mem_append_left
     simp only [List.mem_flatMap]
     exact ⟨w, hmem, by simp⟩
   · apply List.mem_append_left
     simp only [List.mem_flatMap]
     exact ⟨w, hmem, by simp⟩
-  · simp only [T.connectionLost]
-    exact (wire_wakeAll_closing (t.atDeadline dl).blocked
-      { (t.atDeadline dl) with closing := true, canSend := true, blocked := [] } [] rfl rfl).2.1
+  · apply List.mem_append_right
+    simp [T.connectionLost]
+
+/-- the same over runs: whenever time passes up to or beyond the earliest deadline of a blocked
+sender - in any reachable state, closing or not - that step contains the abort at that deadline -/
+theorem stall_aborts_run (d : Int) (es : List Event) (dt : Nat) (dl : Int)
+    (he : earliest (run (init d) es).1.blocked = some dl)
+    (hdue : dl ≤ (run (init d) es).1.now + dt) :
+    Obs.abort dl ∈ (step (run (init d) es).1 (.advance dt)).2 ∧
+    (step (run (init d) es).1 (.advance dt)).1.lost = true := by
+  obtain ⟨w, hw, hwd⟩ := earliest_mem _ _ he
+  have := stall_aborts (run (init d) es).1 ((run (init d) es).1.now + dt) dl w he hdue hw hwd
+  exact ⟨this.1, this.2.2.2.2.1⟩
 
 /-! ## Tie to the source -/
 
@@ -163,14 +210,46 @@ def protoRow (closing cs : Bool) : Facts.C15.Row :=
    r.1.canSend, r.2 == [Obs.resumeReading], r.2 == [], l.1.canSend, true⟩
 
 /-- the decision tables of the real `pause_writing` / `resume_writing` / `connection_lost`
-(both transports, run on a stub each check) are the model's; `write()` re-checks `_can_send` in
-a loop; `max_send_delay` is positive -/
+(both transports, run on a stub each check) are the model's - `closing` rows included: on a
+closing transport `pause_writing` does nothing and `resume_writing` still sets the event and
+resumes reading; `write()` re-checks `_can_send` in a loop; `max_send_delay` is positive -/
 theorem facts_protocol_tables :
     Facts.C15.tableRS = [protoRow false false, protoRow false true, protoRow true false, protoRow true true] ∧
     Facts.C15.tableUS = Facts.C15.tableRS ∧
     Facts.C15.writeLoopsRS = true ∧ Facts.C15.writeLoopsUS = true ∧
     0 < Facts.C15.maxSendDelayMs :=
   ⟨by decide, by decide, by decide, by decide, by decide⟩
+
+/-- **One message = one `transport.write`**: in both transports `write()` calls `frame(..)`
+exactly once and hands the result to the asyncio transport in exactly one call, outside any loop,
+with every suspension point of the function before that call (AST facts regenerated from the
+source each run) - the justification for modelling a message as an atomic id. -/
+theorem facts_write_atomic :
+    Facts.C15.frameOnceRS = true ∧ Facts.C15.writeAtomicRS = true ∧
+    Facts.C15.frameOnceUS = true ∧ Facts.C15.writeAtomicUS = true :=
+  ⟨by decide, by decide, by decide, by decide⟩
+
+/-- **Every sender takes the modelled path**: session.py calls `transport.write` only inside
+`_send_message` (responses, requests, notifications, batches all go through it and its
+`max_send_delay` wrapper), and the transports call the asyncio transport's `write` only inside
+their own `write` (call-site facts regenerated from the source each run). -/
+theorem facts_single_write_path : Facts.C15.singleWritePath = true := by decide
+
+/-- **The stall abort is unconditional**: `_send_message` awaits the write under
+`timeout_after(self.max_send_delay)`; its `except TaskTimeout:` awaits `self.abort()` under no
+condition and re-raises; `transport.abort()` calls `abort()` on the asyncio transport also when it
+is already closing - what `T.fire` does in every state. -/
+theorem facts_stall_abort :
+    Facts.C15.sendWrapsWrite = true ∧ Facts.C15.sendAbortsUnconditionally = true ∧
+    Facts.C15.abortAborts = true :=
+  ⟨by decide, by decide, by decide⟩
+
+/-- **Graceful close**: `transport.close()` calls `close()` on the asyncio transport (the
+`gclose` event: `is_closing()` true at once, the loss only once the send buffer is empty), and
+`is_closing()` is "closed event set or asyncio transport closing" - the model's `closing`. -/
+theorem facts_close :
+    Facts.C15.closeCloses = true ∧ Facts.C15.isClosingIsOr = true :=
+  ⟨by decide, by decide⟩
 
 /-! ## F14 (pinned tree; repaired by a `fix:` commit) -/
 
@@ -186,6 +265,13 @@ theorem nothing_written_while_paused_fails_pinned :
 example :
     let t := (run (init 20) [.pause, .send 1 1 [], .send 2 2 [], .send 3 3 [], .resume [true]]).1
     t.writes = [(1, false)] ∧ msgs t.blocked = [2, 3] ∧ t.reading = false := by decide
+
+/-- non-vacuity of the stall theorem while a graceful close is pending: message 1 is in the
+transport's buffer, the peer stalls, sender 2 is blocked, somebody closes the session (closing, no
+loss yet); at 20 sender 2's timer aborts the connection -/
+example :
+    (run (init 20) [.send 1 1 [true], .send 2 2 [], .gclose true, .advance 30]).2.getLast? =
+      some [Obs.abort 20, Obs.sendTimeout 2 2 20, Obs.lost] := by decide
 
 /-- non-vacuity of the stall theorem: two senders stalled from time 0, aborted at exactly 20 -/
 example :
